@@ -638,18 +638,18 @@ def run(ctx: Ctx) -> Result:
     streams = [iter(load_corpus("C16"))]
     if quick:
         streams += [
-            gen_small_scope(rng, 6, min(1.0, 0.07 * b), 1, 3),
-            gen_single_call_sweep(rng, 3, min(1.0, 0.12 * b)),
-            gen_random_long(rng, ctx.n(1500, 0)),
-            gen_text(rng, ctx.n(700, 0), False),
+            gen_small_scope(rng, 6, min(1.0, 0.35 * b), 1, 3),
+            gen_single_call_sweep(rng, 3, min(1.0, 0.3 * b)),
+            gen_random_long(rng, ctx.n(3000, 0)),
+            gen_text(rng, ctx.n(1500, 0), False),
         ]
     else:
         streams += [
-            gen_small_scope(rng, 6, 1.0, max(1, int(2 * b)), 4),
-            gen_small_scope(rng, 8, min(1.0, 0.02 * b), 1, 4),
-            gen_single_call_sweep(rng, 4, min(1.0, 0.6 * b)),
-            gen_random_long(rng, ctx.n(0, 30000)),
-            gen_text(rng, ctx.n(0, 12000), True),
+            gen_small_scope(rng, 6, 1.0, max(1, int(3 * b)), 4),
+            gen_small_scope(rng, 8, min(1.0, 0.03 * b), 1, 4),
+            gen_single_call_sweep(rng, 4, min(1.0, 1.0 * b)),
+            gen_random_long(rng, ctx.n(0, 60000)),
+            gen_text(rng, ctx.n(0, 25000), True),
         ]
         res.exhaustive = b >= 1.0
         res.stats["enumerated_small_scope"] = "all strings<=6 x chunkings x kinds"
